@@ -160,32 +160,23 @@ theorem sub512_spec (a b : V8) (i : Fin 8) :
 def m128h (x y : BitVec 64) : BitVec 64 := ((mult_avx512_128 (V8.splat x) (V8.splat y)).1).get 0
 def m128l (x y : BitVec 64) : BitVec 64 := ((mult_avx512_128 (V8.splat x) (V8.splat y)).2).get 0
 
+-- the lane-wise intrinsics of `Isa/Avx512.lean` and the register constants join the closed `lane_get` set
+attribute [lane_get] Avx512.add_epi64 Avx512.sub_epi64 Avx512.and_si512 Avx512.xor_si512 Avx512.or_si512
+  Avx512.andnot_si512 Avx512.srli_epi64 Avx512.slli_epi64 Avx512.mul_epu32 Avx512.movehdup_ps Avx512.moveldup_ps
+  V8.get_map V8.get_map2 V8.get_splat Avx512.get_set_same Avx512.get_blend_aaaa g_P8 g_P8_n g_sqmask8
+
 theorem mult512_128_get (a b : V8) (i : Fin 8) :
     (mult_avx512_128 a b).1.get i = m128h (a.get i) (b.get i) ∧
     (mult_avx512_128 a b).2.get i = m128l (a.get i) (b.get i) := by
   unfold m128h m128l
-  simp only [mult_avx512_128, Avx512.movehdup_ps, Avx512.moveldup_ps, Avx512.mul_epu32, Avx512.srli_epi64,
-    Avx512.add_epi64, Avx512.and_si512, V8.get_map2, V8.get_map, V8.get_splat, get_set_same, get_blend_aaaa, g_P8_n,
-    and_self]
+  simp only [mult_avx512_128, lane_get]
 
-theorem m128_lanes (x y : BitVec 64) :
-    m128h x y = mul32 (hdup x) (hdup y) + (mul32 (hdup x) y + (mul32 x y >>> 32)) >>> 32 +
-        (mul32 x (hdup y) + ((mul32 (hdup x) y + (mul32 x y >>> 32)) &&& 4294967295#64)) >>> 32 ∧
-    m128l x y = blend32 2 (mul32 x y)
-        (ldup (mul32 x (hdup y) + ((mul32 (hdup x) y + (mul32 x y >>> 32)) &&& 4294967295#64))) := by
-  unfold m128h m128l
-  simp only [mult_avx512_128, Avx512.movehdup_ps, Avx512.moveldup_ps, Avx512.mul_epu32, Avx512.srli_epi64,
-    Avx512.add_epi64, Avx512.and_si512, V8.get_map2, V8.get_map, V8.get_splat, get_set_same, get_blend_aaaa, g_P8_n,
-    and_self]
-
-/-- same lane function as the AVX2 kernel, hence the same theorem -/
-theorem m128_eq (x y : BitVec 64) : m128h x y = mul128h x y ∧ m128l x y = mul128l x y := by
-  rw [(m128_lanes x y).1, (m128_lanes x y).2, (mul128_lanes x y).1, (mul128_lanes x y).2]
-  exact ⟨rfl, rfl⟩
-
+/-- the 128-bit product is exact (same scheme as the AVX2 kernel, proved on this kernel's own text) -/
 theorem m128_spec (x y : BitVec 64) :
     (m128h x y).toNat * 18446744073709551616 + (m128l x y).toNat = x.toNat * y.toNat := by
-  rw [(m128_eq x y).1, (m128_eq x y).2]; exact mul128_spec x y
+  unfold m128h m128l
+  simp only [mult_avx512_128, lane_get, lane_nat]
+  products_omega x, y
 
 theorem reduce512_128_get (h l : V8) (i : Fin 8) :
     (reduce_avx512_128_64 h l).get i =
@@ -233,37 +224,14 @@ theorem mult512_72_get (a b : V8) (i : Fin 8) :
     (mult_avx512_72 a b).1.get i = m72h (a.get i) (b.get i) ∧
     (mult_avx512_72 a b).2.get i = m72l (a.get i) (b.get i) := by
   unfold m72h m72l
-  simp only [mult_avx512_72, Avx512.movehdup_ps, Avx512.moveldup_ps, Avx512.mul_epu32, Avx512.srli_epi64,
-    Avx512.add_epi64, V8.get_map2, V8.get_map, V8.get_splat, get_blend_aaaa, and_self]
-
-theorem m72_lanes (x y : BitVec 64) :
-    m72h x y = (mul32 (hdup x) y + (mul32 x y >>> 32)) >>> 32 ∧
-    m72l x y = blend32 2 (mul32 x y) (ldup (mul32 (hdup x) y + (mul32 x y >>> 32))) := by
-  unfold m72h m72l
-  simp only [mult_avx512_72, Avx512.movehdup_ps, Avx512.moveldup_ps, Avx512.mul_epu32, Avx512.srli_epi64,
-    Avx512.add_epi64, V8.get_map2, V8.get_map, V8.get_splat, get_blend_aaaa, and_self]
+  simp only [mult_avx512_72, lane_get]
 
 theorem m72_spec (x y : BitVec 64) :
     (m72h x y).toNat * 18446744073709551616 + (m72l x y).toNat = x.toNat * (y.toNat % 4294967296) ∧
     (m72h x y).toNat < 4294967296 := by
-  obtain ⟨eh, el⟩ := m72_lanes x y
-  rw [eh, el]
-  simp only [BitVec.toNat_add, blend_ldup_toNat, ushr32_toNat, mul32_toNat, hdup_mod, Nat.reducePow]
-  have hx := x.isLt
-  have b1 : x.toNat / 4294967296 < 4294967296 := by omega
-  have b2 : x.toNat % 4294967296 < 4294967296 := by omega
-  have b4 : y.toNat % 4294967296 < 4294967296 := by omega
-  have h2 := mul32_le _ _ b1 b4
-  have h4 := mul32_le _ _ b2 b4
-  have core := mul72_core _ _ h2 h4
-  have e1 : x.toNat = x.toNat / 4294967296 * 4294967296 + x.toNat % 4294967296 := by omega
-  have key : x.toNat * (y.toNat % 4294967296) =
-      x.toNat / 4294967296 * (y.toNat % 4294967296) * 4294967296 + x.toNat % 4294967296 * (y.toNat % 4294967296) := by
-    conv => lhs; rw [e1]
-    rw [Nat.add_mul, Nat.mul_right_comm]
-  constructor
-  · exact core.trans key.symm
-  · omega
+  unfold m72h m72l
+  simp only [mult_avx512_72, lane_get, lane_nat]
+  products_omega x, y
 
 theorem reduce512_96_get (h l : V8) (i : Fin 8) :
     (reduce_avx512_96_64 h l).get i = (add_avx512_b_c l (Avx512.mul_epu32 h g_P8_n)).get i := by
@@ -302,21 +270,19 @@ def s128l (x : BitVec 64) : BitVec 64 := ((square_avx512_128 (V8.splat x)).2).ge
 theorem square512_128_get (a : V8) (i : Fin 8) :
     (square_avx512_128 a).1.get i = s128h (a.get i) ∧ (square_avx512_128 a).2.get i = s128l (a.get i) := by
   unfold s128h s128l
-  simp only [square_avx512_128, Avx512.movehdup_ps, Avx512.mul_epu32, Avx512.srli_epi64, Avx512.slli_epi64,
-    Avx512.add_epi64, Avx512.and_si512, V8.get_map2, V8.get_map, V8.get_splat, get_set_same, g_sqmask8, and_self]
+  simp only [square_avx512_128, lane_get]
 
-theorem s128_eq (x : BitVec 64) : s128h x = sq128h x ∧ s128l x = sq128l x := by
-  rw [(sq128_lanes x).1, (sq128_lanes x).2]
+theorem s128_spec (x : BitVec 64) :
+    (s128h x).toNat * 18446744073709551616 + (s128l x).toNat = x.toNat * x.toNat := by
   unfold s128h s128l
-  simp only [square_avx512_128, Avx512.movehdup_ps, Avx512.mul_epu32, Avx512.srli_epi64, Avx512.slli_epi64,
-    Avx512.add_epi64, Avx512.and_si512, V8.get_map2, V8.get_map, V8.get_splat, get_set_same, g_sqmask8, and_self]
+  simp only [square_avx512_128, lane_get, lane_nat]
+  products_omega x, x
 
 theorem square512_spec (a : V8) (i : Fin 8) :
     ((square_avx512 a).get i).toNat % P = ((a.get i).toNat * (a.get i).toNat) % P := by
   have e : (square_avx512 a).get i =
       (reduce_avx512_128_64 (square_avx512_128 a).1 (square_avx512_128 a).2).get i := by
     simp only [square_avx512]
-  rw [e, reduce512_128_spec, (square512_128_get a i).1, (square512_128_get a i).2, (s128_eq _).1, (s128_eq _).2,
-    sq128_spec]
+  rw [e, reduce512_128_spec, (square512_128_get a i).1, (square512_128_get a i).2, s128_spec]
 
 end GoldilocksVerif
